@@ -14,27 +14,75 @@ import fam_emitast
 ID = "C04"
 COQ_PROP = "C04"
 FAMILIES = [(fam_parseast, 2500, 30000), (fam_emitast, 2500, 30000)]
-TECHNIQUE = ("Coq proof of the AST-level codec parse_argparse_ast (emit_argparse ir): one add_argument call per parameter and "
-             "one parameter per call (names and order for every IR and option combination), description text, and per-parameter "
-             "type / required / default / choices / action recovery under guard_C04_ast, unbounded in the number of parameters "
-             "(the require_default flag is carried through the induction) + differential correspondence of the EmitAst and "
-             "ParseAst models + round-trip oracle on the real emitter/parser classified by finding_class_C04")
+TECHNIQUE = ("Coq proof of the AST-level codec parse_argparse_ast (emit_argparse ir): one add_argument call per parameter and one "
+             "parameter per call, names and order for every IR, option combination and docstring (C04_names_order); inside "
+             "guard_C04_ast (T, Optional[T], List[T] over a scalar T, Literal of two or more strings; wrapping off) the parser returns "
+             "the description and the closed form norm_params_C04 ir -- help, type, choices, append, required/Optional, defaults with "
+             "their Python type, zero value for required options, the require_default flag threaded through the induction -- which "
+             "is same_interface_argparse to argparse_type_norm ir (C04_partial); unbounded in the number of parameters and of "
+             "choices; ~ C04_ast_statement with one computed witness per AST-visible finding class + differential correspondence "
+             "of the EmitAst and ParseAst models + round-trip oracle on the real emitter/parser classified by finding_class_C04 + "
+             "audit of the theorem's guard on the real code")
 TRUSTED = [
     "modelled, not verified: ast.unparse followed by ast.parse is the identity on the emitted tree (hypothesis R1; the oracle "
     "runs the real unparse/parse on every point)",
     "the docstring layer is decoupled: emit.docstring's text is an input of emit_argparse and the IR parse_docstring returns "
-    "is an input of parse_argparse_ast; the theorem holds for every such pair (the function docstring only matters for a "
-    "return entry with a default, which is a finding class)",
-    "word_wrap / wrap_description on: Fill.fill is part of the model; the theorem is stated for both off (wrapping of long "
-    "text is a finding class, short text is covered by correspondence and the oracle)",
+    "is an input of parse_argparse_ast; the theorems hold for every such text and IR (they only matter for a return entry "
+    "with a default, which is a finding class: C04_return_requoted_witness)",
+    "word_wrap / wrap_description on: Fill.fill is part of the model; C04_partial is stated for both off (wrapping of long text "
+    "is a finding class; short text is covered by correspondence and the oracle); C04_names_order holds for every combination",
+    "outside guard_C04_ast and not proved: **kwargs-style parameters (the None marker of Optional[dict] is emitted through the "
+    "recorded parse table), code-quoted defaults, carried bodies",
     "finding_class_C04 (the partition of the failures of the real code) is validated by the oracle on every run, not proved "
-    "complete: guard_C04_ast of the theorem is a sub-domain of guard_C04",
+    "complete; guard_C04_ast covers the generated points the classifier leaves unflagged except the kwargs ones",
 ]
+
+
+def _theorem_guard_audit(rng, n):
+    """points inside guard_C04_ast (the sub-domain of theorem C04_partial; word_wrap and wrap_description off): the classifier
+    must not flag them and the real round trip must hold.  Needs the family run_c04compose of model/C04Codec.v in the
+    driver; skipped otherwise."""
+    from common import Sym, dumps, loads, run_model, unhx
+    import irwire
+    F = fam_parseast
+    pts = [F.gen_point(rng, "argparse") for _ in range(n)]
+    enc = [irwire.enc_ir(F._od(ir)) for ir, _, _ in pts]
+    g = run_model([dumps([Sym("c04_ast_check"), e, o["emit_default_doc"]]) for e, (_, o, _) in zip(enc, pts)])
+    if any(r == "bad-request" for r in g[:1]):
+        return {"theorem-guard:family-not-in-driver": 1}, []
+    cls = run_model([dumps([Sym("c04_class"), o["emit_default_doc"], False, False, e]) for e, (_, o, _) in zip(enc, pts)])
+    hist, failures = {"theorem-guard:inside": 0, "theorem-guard:points": n}, []
+    for (ir, o, _), a, c in zip(pts, g, cls):
+        ga = loads(a)
+        if ga[0] != "true":
+            continue
+        hist["theorem-guard:inside"] += 1
+        o2 = dict(o, word_wrap=False, wrap_description=False)
+        case = {"kind": "argparse", "ir": ir, "opts": o2}
+        if ga[1] != "true" or ga[2] != ["some", "true"]:
+            failures.append({"case": case, "class": None,
+                             "what": "model: guard_C04_ast holds but the composed model round trip / closed form does not (%r)" % (ga,)})
+        ce = loads(c)
+        if ce != "none":
+            failures.append({"case": case, "class": None,
+                             "what": "inside guard_C04_ast but finding_class_C04 says %s" % (ce if ce == "out-of-domain" else unhx(ce[1]))})
+            continue
+        ok, what, _ = F.round_trip("argparse", ir, o2)
+        if not ok:
+            failures.append({"case": case, "what": "inside guard_C04_ast, yet: " + what, "class": None})
+    return hist, failures
 
 
 def oracle(rng, tier):
     n = 3000 if tier == "quick" else 40000
-    return fam_parseast.oracle_argparse(rng, n)
+    res = fam_parseast.oracle_argparse(rng, n)
+    hist, failures = _theorem_guard_audit(rng, 600 if tier == "quick" else 8000)
+    res["histogram"].update(hist)
+    res["failures"] += failures
+    res["evaluations"] += hist.get("theorem-guard:points", 0)
+    res["rule"] += (" | audit of the theorem's guard: points inside guard_C04_ast (wrapping off) must be unflagged by finding_class_C04 "
+                    "and round-trip on the real code")
+    return res
 
 
 def check_case(case):
